@@ -31,9 +31,140 @@ func (r *run) ufBytes(name string, w int, b []*term.Term) *term.Term {
 	return r.uf(fmt.Sprintf("%s/%d", name, len(b)), w, args...)
 }
 
+// tryValues enumerates the feasible values of t; ok=false if there are more than limit.
+func (r *run) tryValues(t *term.Term, limit int) (vals []uint64, ok bool) {
+	if t.IsConst() {
+		return []uint64{t.Val}, true
+	}
+	if r.eng.Concrete != nil {
+		return nil, false
+	}
+	r.sol.Push()
+	defer r.sol.Pop()
+	for {
+		res, err := r.sol.Check()
+		if err != nil || res.String() == "unknown" {
+			return nil, false
+		}
+		if res.String() == "unsat" {
+			return vals, true
+		}
+		v, err := r.sol.Eval([]*term.Term{t})
+		if err != nil {
+			return nil, false
+		}
+		vals = append(vals, v[0])
+		if len(vals) > limit {
+			return nil, false
+		}
+		r.sol.Assert(term.Not(term.Eq(t, term.Const(t.W, v[0]))))
+	}
+}
+
+// fmtInt renders an integer in decimal: exactly when it is concrete or has few feasible values (case split),
+// otherwise as an uninterpreted 4-byte string of the value (noted as a stub).
+func (r *run) fmtInt(t *term.Term, signed bool) Str {
+	if c := r.eng.Concrete; c != nil && t.IsConst() {
+		// concrete replay: follow the rendering the symbolic run used for this value
+		for _, e := range c.UF {
+			if e.Name == "fmtint" && len(e.Args) == 1 && e.Args[0] == t.Val {
+				return r.fmtWide(t)
+			}
+		}
+	}
+	wideSet, _ := r.objs["fmtwide"].(map[*term.Term]bool)
+	if wideSet == nil {
+		wideSet = map[*term.Term]bool{}
+		r.objs["fmtwide"] = wideSet
+	}
+	if !t.IsConst() && wideSet[t] {
+		return r.fmtWide(t) // sticky: one rendering per value term on a path
+	}
+	if !t.IsConst() && r.pos >= len(r.trace) {
+		if _, ok := r.tryValues(t, 8); !ok {
+			r.takeWide(true)
+			wideSet[t] = true
+			return r.fmtWide(t)
+		}
+		r.takeWide(false)
+	} else if !t.IsConst() {
+		if r.replayWide() {
+			wideSet[t] = true
+			return r.fmtWide(t)
+		}
+	}
+	v := r.concretize(t, "integer to format")
+	c := term.Const(t.W, v)
+	if signed {
+		return StrOf(fmt.Sprint(c.SVal()))
+	}
+	return StrOf(fmt.Sprint(c.Val))
+}
+
+// takeWide records (as a forced decision) which rendering was used so that replays of the prefix agree.
+func (r *run) takeWide(wide bool) {
+	v := uint64(0)
+	if wide {
+		v = 1
+	}
+	r.taken = append(r.taken, Decision{Val: v, Forced: true})
+}
+
+func (r *run) replayWide() bool {
+	d := r.trace[r.pos]
+	r.pos++
+	r.taken = append(r.taken, d)
+	return d.Val == 1
+}
+
+func (r *run) fmtWide(t *term.Term) Str {
+	r.note("decimal formatting of a wide symbolic integer is an uninterpreted 4-byte string of its value")
+	w := r.uf("fmtint", 64, term.Resize(t, 64, false))
+	out := make(Str, 4)
+	for i := range out {
+		out[i] = term.Resize(term.LShr(w, term.Const(64, uint64(8*i))), 8, false)
+	}
+	return out
+}
+
 // stdIntrinsics: models of standard-library and third-party leaf functions (see DESIGN §3.2).
 func stdIntrinsics(m map[string]Intrinsic) {
 	xx := func(r *run, fr *frame, args []Value) Value { return r.ufBytes("xxh3", 64, bytesOf(args[0])) }
 	m["github.com/zeebo/xxh3.Hash"] = xx
 	m["github.com/zeebo/xxh3.HashString"] = xx
+	// crypto: uninterpreted functions / nondeterministic verdicts
+	digest := func(name string, n int) Intrinsic {
+		return func(r *run, fr *frame, args []Value) Value {
+			in := bytesOf(args[0])
+			out := make(Array, n)
+			for w := 0; w*8 < n; w++ {
+				word := r.ufBytes(fmt.Sprintf("%s.w%d", name, w), 64, in)
+				for b := 0; b < 8 && w*8+b < n; b++ {
+					out[w*8+b] = term.Resize(term.LShr(word, term.Const(64, uint64(56-8*b))), 8, false)
+				}
+			}
+			return out
+		}
+	}
+	m["crypto/sha256.Sum256"] = digest("sha256", 32)
+	m["crypto/sha256.Sum224"] = digest("sha224", 28)
+	m["crypto/sha512.Sum512"] = digest("sha512", 64)
+	m["crypto/sha1.Sum"] = digest("sha1", 20)
+	m["strconv.Itoa"] = func(r *run, fr *frame, args []Value) Value { return r.fmtInt(asTerm(args[0]), true) }
+	m["strconv.FormatInt"] = func(r *run, fr *frame, args []Value) Value {
+		if b := asTerm(args[1]); !b.IsConst() || b.Val != 10 {
+			panic(unsupported("strconv.FormatInt with base != 10"))
+		}
+		return r.fmtInt(asTerm(args[0]), true)
+	}
+	m["strconv.FormatUint"] = func(r *run, fr *frame, args []Value) Value {
+		if b := asTerm(args[1]); !b.IsConst() || b.Val != 10 {
+			panic(unsupported("strconv.FormatUint with base != 10"))
+		}
+		return r.fmtInt(asTerm(args[0]), false)
+	}
+	m["crypto/ed25519.Verify"] = func(r *run, fr *frame, args []Value) Value {
+		r.note("ed25519.Verify returns an arbitrary verdict (nondeterministic stub)")
+		return r.fresh("ed25519.verify", 0)
+	}
 }
